@@ -33,10 +33,11 @@ use parser::Parser;
 use pattern::Pattern;
 use quote::ToTokens;
 
-use proc_macro2::{TokenStream, TokenTree};
+use proc_macro2::TokenStream;
 use quote::quote;
+use syn::punctuated::Punctuated;
 use syn::spanned::Spanned;
-use syn::{parse_quote, LitBool};
+use syn::{parse_quote, LitBool, Token};
 use syn::{Fields, ItemEnum};
 
 use crate::graph::Config;
@@ -455,18 +456,16 @@ pub fn strip_attributes(input: TokenStream) -> TokenStream {
     for attr in &mut item.attrs {
         if let syn::Meta::List(meta) = &mut attr.meta {
             if meta.path.is_ident("derive") {
-                let mut tokens =
-                    std::mem::replace(&mut meta.tokens, TokenStream::new()).into_iter();
+                let parser = Punctuated::<syn::Path, Token![,]>::parse_terminated;
 
-                while let Some(TokenTree::Ident(ident)) = tokens.next() {
-                    let punct = tokens.next();
+                if let Ok(derives) = meta.parse_args_with(parser) {
+                    let derives = derives.into_iter().filter(|path| {
+                        path.segments
+                            .last()
+                            .map_or(true, |segment| segment.ident != "Logos")
+                    });
 
-                    if ident == "Logos" {
-                        continue;
-                    }
-
-                    meta.tokens.extend([TokenTree::Ident(ident)]);
-                    meta.tokens.extend(punct);
+                    meta.tokens = quote!(#(#derives),*);
                 }
             }
         }
